@@ -361,6 +361,13 @@ def extra_bases(seed):
         for sc in scal_ccv:
             out += [['add', v, sc], ['sub', v, ['neg', sc]]]
         out += [['add', ['abs', v], ['max1', v]], ['sub', ['min', v, x], ['abs', x]]]
+    # sums of componentwise max / min (kept by the library as one 'sum of max' term that indexing, slicing and
+    # scaling have to expand or re-label), alone, negated, scaled, and broadcast over a vector
+    for v in (y, z):
+        smin, smax = ['sum', ['min', v, x]], ['sum', ['max', v, K['i0']]]
+        out += [smin, smax, ['neg', smax], ['neg', smin], ['mul', K['i2'], smin], ['mul', K['im1'], smax],
+                ['add', smin, x], ['sub', x, smax], ['add', v, smin], ['add', ['abs', v], smax],
+                ['add', smin, ['min1', v]], ['sub', smin, smax]]
     return out
 
 
